@@ -202,4 +202,16 @@ def route (P : Prims) (key data : Bytes) : Routed :=
     | .error .length => .err "unencLength"
     | .ok (mid, body) => if mid % 4 ≠ 1 ∧ mid % 4 ≠ 3 then .err "parity2" else .unenc mid body
 
+/-! ### `MTProto.readMsg`: what the client takes for a message of its session -/
+
+/-- `MTProto.readMsg` on top of `ReadMsg`. `encMode` = `m.encrypted`: the session works under its auth key (a
+stored session was loaded, or the key exchange has verified dh_gen_ok). The transport routes by the first eight
+bytes alone — it cannot know the session's state —; `readMsg` knows it and refuses an unencrypted message in that
+mode ("unencrypted message in an encrypted session"): nobody needs the key to write one. While the client has no
+key (`encMode = false`, the key exchange) plain text is what the server answers with. -/
+def clientRead (encMode : Bool) (P : Prims) (key data : Bytes) : Routed :=
+  match route P key data with
+  | .unenc mid body => if encMode then .err "plainInEncryptedSession" else .unenc mid body
+  | r => r
+
 end Mtv.Envelope
